@@ -59,6 +59,8 @@ type clCase struct {
 	Claims []*clClaim
 	Proofs []*clProof
 	B, W, E int64
+	// LowerAt: height of a governance transaction that lowers the claim submission window to 2 (0 = none)
+	LowerAt     int64
 	Nodes, Apps int
 }
 
@@ -98,6 +100,11 @@ func genClaimsCase(seed int64, si int, prop string) *clCase {
 		first += c.B
 	}
 	nSessions := 3 + rr.Intn(3)
+	if prop == "C31" && c.W >= 3 && si%3 == 2 {
+		// governance lowers the submission window to 2 in the first block of the second session: sessions that started
+		// before keep the window they started with, and so must the block whose hash selects their leaf
+		c.LowerAt = first + c.B
+	}
 	byH := map[int64][]string{}
 	add := func(h int64, d chain.DynTx) int {
 		byH[h] = append(byH[h], d.Encode())
@@ -198,6 +205,9 @@ func genClaimsCase(seed int64, si int, prop string) *clCase {
 			if cl.Class == "challenge-typed" {
 				pc = "repeated"
 			}
+			if c.LowerAt > 0 && sbh < c.LowerAt && pc == "valid" {
+				pc = "latest-window"
+			}
 			lo := ph
 			if cl.H+1 > lo {
 				lo = cl.H + 1
@@ -226,6 +236,11 @@ func genClaimsCase(seed int64, si int, prop string) *clCase {
 			case "wrong-index":
 				mk(within(), pc, func(d *chain.DynTx) { d.IndexShift = 1 + rr.Intn(3) })
 				mk(within()+1, "valid-after-wrong", nil)
+			case "latest-window":
+				// first a proof of the leaf selected under the window as it is NOW, then the proper one
+				h := within()
+				mk(h, pc, func(d *chain.DynTx) { d.LatestWindow = true })
+				mk(h+int64(rr.Intn(2)), "valid-after-latest-window", nil)
 			case "foreign-leaf":
 				mk(within(), pc, func(d *chain.DynTx) { d.LeafShift = 1 + rr.Intn(3) })
 			case "leaf-for-other-servicer":
@@ -278,6 +293,10 @@ func genClaimsCase(seed int64, si int, prop string) *clCase {
 		static := 0
 		if b.H == unstakeH {
 			b.Tx(chain.MsgNodeUnstake(chain.Addr(victim), chain.Addr(victim)), chain.Key(victim))
+			static++
+		}
+		if c.LowerAt > 0 && b.H == c.LowerAt {
+			b.Tx(chain.MsgChangeParam(chain.Addr(chain.KeyOwner), "pocketcore/ClaimSubmissionWindow", []byte(`"2"`)), chain.Key(chain.KeyOwner))
 			static++
 		}
 		if prop == "C32" && b.H == raiseH {
@@ -385,7 +404,7 @@ func checkClaims(r *ev.Run, prop string) {
 	n := r.N(64, 1600)
 	if prop == "C31" {
 		n = r.N(60, 1500)
-		r.Rule("case = one generated history on the full node for one (blocks-per-session 2..6, claim-submission-window 2..4; genesis validation refuses 1 for either) pair (all 15 pairs, then repeated with other PRNG draws): claims at every kind of height relative to the session end and the proof height, each built inside the node process from what is committed when its block is produced; the process reports whether the block hash that will select the leaf (hash of block proofHeight-1, proofHeight = session height + window*blocks-per-session) was already committed. Oracle: (a) no accepted claim was built when its selector was already committed; (b) whenever a proof is paid, the index it proved equals the reference formula applied to that hash, the session header and the claimed total, and lies in [0,total); a proof shifted to another index is never paid; (c) a claim whose only genuine leaf sits at a predicted index (all other leaves garbage) is never paid. Non-trivial = a history with at least one paid proof and one claim at the proof height; distinct = script digest.")
+		r.Rule("case = one generated history on the full node for one (blocks-per-session 2..6, claim-submission-window 2..4; genesis validation refuses 1 for either) pair (all 15 pairs, then repeated with other PRNG draws): claims at every kind of height relative to the session end and the proof height, each built inside the node process from what is committed when its block is produced; the process reports whether the block hash that will select the leaf (hash of block proofHeight-1, proofHeight = session height + window*blocks-per-session) was already committed. Oracle: (a) no accepted claim was built when its selector was already committed; (b) whenever a proof is paid, the index it proved equals the reference formula applied to that hash, the session header and the claimed total, and lies in [0,total); a proof shifted to another index is never paid; (c) a claim whose only genuine leaf sits at a predicted index (all other leaves garbage) is never paid. In a third of the histories with a window of 3 or 4 a governance transaction lowers the window to 2 in the first block of the second session; for sessions that started before, a proof of the leaf selected under the CURRENT window is submitted before the proper one: the reference keeps the window of the session's start state, so that proof must not be paid. Non-trivial = a history with at least one paid proof and one claim at the proof height; distinct = script digest.")
 	} else {
 		r.Rule("case = one generated history on the full node (blocks-per-session 2..5, submission window 2..4, expiration window+1..3 sessions, 6 nodes of which 3 serve a session, 3 applications, one node unstaking and one being jailed at PRNG-chosen heights): per session and node a claim of one of 16 classes and a proof of one of 13 classes (see source). Per-transaction snapshots of the claims store and the supply are judged: an accepted claim must come after its session ended and not after it matured, from a node in the reference session (independent selection over the snapshots of the session's first and last block), for an application staked for a supported chain at the session start, with a total within [minimum, allowance]; supply may only grow in an accepted proof transaction whose claim was stored, whose index is the reference index, whose leaf belongs to the claimed set, and the claim must be gone afterwards; no (servicer, session) is ever paid twice; claims past their expiration height are gone and their removal mints nothing. Non-trivial = a history with at least one paid proof and one rejected claim; distinct = script digest.")
 	}
